@@ -295,11 +295,46 @@ def join(ex, sep, parts, st, node):
         hook = getattr(ex.c, 'join_model', None)
         if hook is not None:
             return hook(ex, sq, st, kind)
-        raise SymErr('join of a symbolic number of variable-length pieces (line %d)' % node.lineno)
+        r = concat_model(sq, kind)
+        ex.assumptions.add('sep.join(pieces) with a symbolic number of variable-length pieces is modelled as the '
+                           'concatenation characterised by an offset function (builtin model of join)')
+        return r
     if L == 0:
         return SSeq(0, lambda k: 0, kind)
     g = sq.get
     return SSeq(sq.n * L, lambda k: SSeq.of(g(k // L)).get(k % L), kind)
+
+
+def concat_model(pieces, kind):
+    """Concatenation of pieces.get(0..n-1), each an SSeq of symbolic length: characterised by an offset
+    function OFF (OFF(0)=0, OFF(k+1)=OFF(k)+len(piece k)) and RES[OFF(k)+j] = piece(k)[j].  The axioms are global
+    facts about fresh symbols (a definition), so they go to E.axioms."""
+    n = pieces.n
+    OFF = z3.Function(E.fresh('off'), V.isort(), V.isort())
+    RES = z3.Function(E.fresh('cat'), V.isort(), V.isort())
+    k, j = V.ivar(E.fresh('k')), V.ivar(E.fresh('j'))
+    pk = SSeq.of(pieces.get(SInt(k)))
+    nt = toint(n)
+    E.axioms.append(OFF(V.iconst(0)) == V.iconst(0))
+    E.axioms.append(z3.ForAll([k], z3.Implies(z3.And(k >= 0, k < nt),
+                                              z3.And(toint(pk.n) >= 0, OFF(k + 1) == OFF(k) + toint(pk.n))),
+                              patterns=[OFF(k)]))
+    E.axioms.append(z3.ForAll([k, j], z3.Implies(z3.And(k >= 0, k < nt, j >= 0, j < toint(pk.n)),
+                                                 RES(OFF(k) + j) == toint(pk.get(SInt(j)))),
+                              patterns=[z3.MultiPattern(OFF(k), RES(OFF(k) + j))]))
+    # lemma (by induction on b, both steps are obligations): OFF is monotone on [0, n]
+    a, b = V.ivar(E.fresh('a')), V.ivar(E.fresh('b'))
+    E.lemmas.append(('lemma.concat-offsets-monotone/base', [], z3.ForAll([a], OFF(a) <= OFF(a))))
+    E.lemmas.append(('lemma.concat-offsets-monotone/step',
+                     [z3.And(a >= 0, a <= b, b < nt, OFF(a) <= OFF(b))], OFF(a) <= OFF(b + 1)))
+    E.axioms.append(z3.ForAll([a, b], z3.Implies(z3.And(a >= 0, a <= b, b <= nt), OFF(a) <= OFF(b)),
+                              patterns=[z3.MultiPattern(OFF(a), OFF(b))]))
+    r = SSeq(SInt(OFF(nt)), lambda i: SInt(RES(toint(i))), kind)
+    CONCATS[id(r)] = (r, pieces, OFF)
+    return r
+
+
+CONCATS = {}
 
 
 def call_builtin(ex, name, args, kw, st, node):
